@@ -1,3 +1,4 @@
+pub mod canon;
 pub mod cfg;
 pub mod world;
 mod world2;
